@@ -327,8 +327,10 @@ class Outcome:
             "wall_s": round(time.time() - self.t0, 2),
             "violations": nviol,
         }
-        os.makedirs(os.path.join(VERIF, "evidence"), exist_ok=True)
-        json.dump(ev, open(os.path.join(VERIF, "evidence", "%s.json" % self.pid), "w"), indent=1, default=str)
+        # development runs without the proof step never overwrite the evidence of record
+        edir = os.path.join(VERIF, "evidence") if self.proof is not None else os.path.join(VERIF, ".cache", "dev-evidence")
+        os.makedirs(edir, exist_ok=True)
+        json.dump(ev, open(os.path.join(edir, "%s.json" % self.pid), "w"), indent=1, default=str)
 
 
 # ---------- conditioning: is a float disagreement just amplified rounding noise? ----------
